@@ -104,6 +104,10 @@ def corrupt_sorted_view(run):
 
 
 
+_ST_LOCK = threading.Lock()
+_ST_N = [0]
+
+
 def selftest(ctx, trace_module, path, mutate, what):
     """binding self-test: take the first run of a validated trace file that the mutator can corrupt, corrupt one field
     of one event and validate WITH the known-finding deviations enabled: the trace must be rejected, and rejected at
@@ -114,12 +118,15 @@ def selftest(ctx, trace_module, path, mutate, what):
         idx = mutate(run)
         if idx is None:
             continue
-        p = os.path.join(ctx.work, "selftest-%d.ndjson" % len(ctx.cov["selftests"]))
+        with _ST_LOCK:
+            _ST_N[0] += 1
+            p = os.path.join(ctx.work, "selftest-%d.ndjson" % _ST_N[0])
         vlib.write_ndjson(p, run)
         r = vlib.validate_one(trace_module, p, kf=True)
         ok = (not r["accepted"]) and r["rejected_at"] == idx + 1
-        ctx.cov["selftests"].append({"what": what, "trace_spec": trace_module, "rejected_as_expected": ok, "corrupted_line": idx + 1,
-                                     "rejected_at": r["rejected_at"], "deviations_enabled": True})
+        with _ST_LOCK:
+            ctx.cov["selftests"].append({"what": what, "trace_spec": trace_module, "rejected_as_expected": ok, "corrupted_line": idx + 1,
+                                         "rejected_at": r["rejected_at"], "deviations_enabled": True})
         if not ok:
             raise vlib.ToolError("binding self-test failed: corrupted trace (%s) was not rejected at the corrupted line %d: %s" % (what, idx + 1, r))
         vlib.log("self-test ok: %s (rejected at line %s)" % (what, r["rejected_at"]))
@@ -195,43 +202,91 @@ def run(ctx):
         if r[1] == 0:
             raise vlib.ToolError("generator %s produced no behaviours" % name)
 
-    # --- B2: replay the generated histories on every subject (one child process per subject)
+    # --- B2: replay the generated histories on every subject (one child process per subject), and
+    # --- B1: seeded random histories + the systematic wrap/grow scenarios; all harness stages at once
     sample = 3000 if th else 300
-    b2 = {}
-    for name, (_m, _c, kind) in gens.items():
-        b2[name] = ctx.harness(BIN, "replay", "b2-" + name, timeout=3000,
-                               extra={"kind": kind, "in": os.path.join(w, "beh-%s.ndjson" % name), "sample": sample,
-                                      "per_key": 4 if th else 3, "max_mismatch": 120 if th else 45})
-    # --- B1: seeded random histories + the systematic wrap/grow scenarios
-    b1 = ctx.harness(BIN, "drive", "b1", timeout=3000)
 
-    seq_files = files_of(b1, "seq-")
-    dq_files = files_of(b1, "dq-")
-    str_files = files_of(b1, "str-")
-    for name, s in b2.items():
-        seq_files += files_of(s, "seq-")
-        dq_files += files_of(s, "dq-")
-    ctx.validate(T_SEQ, seq_files, what="vector operation history")
-    ctx.validate(T_DQ, dq_files, what="queue operation history")
-    ctx.validate(T_STR, str_files, what="string vector operation history")
+    def do_replay(name):
+        kind = gens[name][2]
+        return ctx.harness(BIN, "replay", "b2-" + name, timeout=3000,
+                           extra={"kind": kind, "in": os.path.join(w, "beh-%s.ndjson" % name), "sample": sample, "threads": 4,
+                                  "per_key": 4 if th else 3, "max_mismatch": 120 if th else 45})
 
-    # --- binding self-tests: corrupted traces must be rejected
+    with cf.ThreadPoolExecutor(max_workers=6) as ex:
+        fb1 = ex.submit(lambda: ctx.harness(BIN, "drive", "b1", timeout=3000))
+        fb2 = {name: ex.submit(do_replay, name) for name in gens}
+        b1 = fb1.result()
+        b2 = {name: f.result() for name, f in fb2.items()}
+
+    # one file per subject with recorded deviations (a rejection re-validates only that subject), the others in chunks
+    merged = os.path.join(w, "merged")
+    os.makedirs(merged, exist_ok=True)
+    DEV_FAMS = ("valvec32", "autogrow", "fixedq", "advanced", "zo")
+
+    def merge(prefix):
+        files = files_of(b1, prefix)
+        for s in b2.values():
+            files += files_of(s, prefix)
+        per_subject, clean = {}, []
+        for f in files:
+            for run in vlib.split_runs(vlib.read_ndjson(f)):
+                subj = run[0].get("subject", "?")
+                if subj.split(":")[0] in DEV_FAMS or run[0].get("crash"):
+                    per_subject.setdefault(subj, []).extend(run)
+                else:
+                    clean.append(run)
+        out = []
+        for subj, evs in sorted(per_subject.items()):
+            p = os.path.join(merged, "%s%s.ndjson" % (prefix, "".join(ch if ch.isalnum() else "_" for ch in subj)))
+            vlib.write_ndjson(p, evs)
+            out.append(p)
+        chunk, n, k = [], 0, 0
+        for run in clean + [None]:
+            if run is None or n + len(run) > 1500:
+                if chunk:
+                    p = os.path.join(merged, "%schunk%02d.ndjson" % (prefix, k))
+                    vlib.write_ndjson(p, chunk)
+                    out.append(p)
+                    k += 1
+                chunk, n = [], 0
+            if run is not None:
+                chunk.extend(run)
+                n += len(run)
+        return out
+
+    ctx.validate(T_SEQ, merge("seq-"), what="vector operation history")
+    ctx.validate(T_DQ, merge("dq-"), what="queue operation history")
+    ctx.validate(T_STR, merge("str-"), what="string vector operation history")
+
+    # --- binding self-tests: corrupted traces must be rejected (at the corrupted event, deviations enabled)
     b1d = b1["_out"]
     fv = os.path.join(b1d, "seq-fastvec_new-0000.ndjson")
-    selftest(ctx, T_SEQ, fv, corrupt_content, "one element of the reported content (as_slice) changed")
-    selftest(ctx, T_SEQ, fv, corrupt_dropped_remove, "one id removed from a dropped-id list (unreported destructor = leak)")
-    selftest(ctx, T_SEQ, fv, corrupt_dropped_add, "an element still inside added to a dropped-id list")
-    selftest(ctx, T_SEQ, fv, corrupt_double_drop, "an already destroyed id reported destroyed a second time")
-    selftest(ctx, T_SEQ, fv, corrupt_pop_result, "value returned by pop changed")
     fq = os.path.join(b1d, "dq-autogrow_cap_5-0000.ndjson")
-    selftest(ctx, T_DQ, fq, corrupt_content, "one element of the queue content changed")
-    selftest(ctx, T_DQ, fq, corrupt_dropped_remove, "one id removed from a dropped-id list of a queue call")
-    selftest(ctx, T_DQ, fq, corrupt_pop_result, "value returned by pop_front changed")
-    selftest(ctx, T_DQ, os.path.join(b1d, "dq-fixedq_2-0000.ndjson"), corrupt_refusal_ignored,
-                         "push refused by the full fixed-capacity queue reported as accepted")
     fs = os.path.join(b1d, "str-sortable_new-0000.ndjson")
-    selftest(ctx, T_STR, fs, corrupt_string_byte, "one byte of a stored string changed")
-    selftest(ctx, T_STR, fs, corrupt_sorted_view, "two entries of the sorted view swapped")
+    tests = [
+        (T_SEQ, fv, corrupt_content, "one element of the reported content (as_slice) changed"),
+        (T_SEQ, fv, corrupt_dropped_remove, "one id removed from a dropped-id list (unreported destructor = leak)"),
+        (T_SEQ, fv, corrupt_dropped_add, "an element still inside added to a dropped-id list"),
+        (T_SEQ, fv, corrupt_double_drop, "an already destroyed id reported destroyed a second time"),
+        (T_SEQ, fv, corrupt_pop_result, "value returned by pop changed"),
+        (T_DQ, fq, corrupt_content, "one element of the queue content changed"),
+        (T_DQ, fq, corrupt_dropped_remove, "one id removed from a dropped-id list of a queue call"),
+        (T_DQ, fq, corrupt_pop_result, "value returned by pop_front changed"),
+        (T_DQ, os.path.join(b1d, "dq-fixedq_2-0000.ndjson"), corrupt_refusal_ignored,
+         "push refused by the full fixed-capacity queue reported as accepted"),
+        (T_STR, fs, corrupt_string_byte, "one byte of a stored string changed"),
+        (T_STR, fs, corrupt_sorted_view, "two entries of the sorted view swapped"),
+    ]
+    with cf.ThreadPoolExecutor(max_workers=6) as ex:
+        futs = [ex.submit(selftest, ctx, *t) for t in tests]
+        errs = []
+        for f in futs:
+            try:
+                f.result()
+            except vlib.ToolError as e:
+                errs.append(str(e))
+        if errs:
+            raise vlib.ToolError("; ".join(errs))
 
     # --- evidence
     cov = ctx.cov
@@ -246,20 +301,20 @@ def run(ctx):
     vacuous = []
     unjudged = {}
     for name, d in b1.get("subjects", {}).items():
-        ent = {"b1": {k: d.get(k) for k in ("events", "runs", "panics", "refused", "ops", "crash") if k in d}}
+        ent = {"b1": {k: d.get(k) for k in ("events", "runs", "nontrivial_runs", "panics", "refused", "ops", "crash") if k in d}}
         nb = 0
         for g, s in b2.items():
             x = s.get("subjects", {}).get(name)
             if x:
-                ent["b2_" + g] = {k: x.get(k) for k in ("behaviours", "unsupported", "mismatching", "mismatch_traces_written", "refused", "mismatch_kinds", "crash") if k in x}
-                nb += x.get("behaviours", 0)
+                ent["b2_" + g] = {k: x.get(k) for k in ("behaviours", "nontrivial", "unsupported", "mismatching", "mismatch_traces_written", "refused", "mismatch_kinds", "crash") if k in x}
+                nb += x.get("nontrivial", 0)
                 for kind, kk in (x.get("mismatch_kinds") or {}).items():
                     if kk.get("judged", 0) == 0:
                         unjudged.setdefault(name, []).append(kind)
         subjects[name] = ent
-        # distinct non-trivial cases: (subject, history) pairs executed in B2 + (subject, run) of B1; every run and every
-        # history holds at least one state-changing call
-        nontrivial += nb + (d.get("runs") or 0)
+        # distinct non-trivial cases: (subject, history) pairs executed in B2 in which some step changes the content TLC
+        # expects + (subject, run) pairs of B1 in which the container held at least one element at some point
+        nontrivial += nb + (d.get("nontrivial_runs") or 0)
         ops = d.get("ops") or {}
         mutating = sum(v for k, v in ops.items() if k not in ("find", "bsearch", "maintenance", "reserve", "shrink"))
         if (d.get("events") or 0) == 0 or (mutating == 0 and not name.startswith("zo:")):
@@ -280,7 +335,9 @@ def run(ctx):
         "%s differing histories per subject are judged by TLC (Trace_Seq/Trace_Deque).  B1: seeded random histories per subject (vectors up to 40 "
         "elements so that every reallocation and the 64-byte SIMD paths are crossed; queues with clone/bulk/reserve) and, for AutoGrowCircularQueue, "
         "growth forced by push_back/push_bulk/reserve/clone at every head offset and two fill levels; every B1 event is validated by TLC.  "
-        "distinct_nontrivial = (subject, history) pairs executed + (subject, B1 run) pairs; every one contains a state-changing call.  "
+        "distinct_nontrivial = (subject, history) pairs executed in which at least one step changes the expected content (histories that only pop/clear "
+        "an empty container are executed but not counted) + (subject, B1 run) pairs in which the container held an element at some point; pairs are "
+        "distinct by construction (each history is generated once, each run has its own derived seed).  "
         "exhaustive refers to the B2 history spaces." % (("4", "5", "7", "10", "4") if th else ("3", "4", "5", "8", "3")))
     for f in (fv, fq, fs):
         if os.path.exists(f):
